@@ -521,6 +521,7 @@ func (bh *Header) RemoveReference(r *Reference) error {
 	bh.refs = append(bh.refs[:r.id], bh.refs[r.id+1:]...)
 	for i := range bh.refs[r.id:] {
 		bh.refs[i+int(r.id)].id--
+		bh.seenRefs[bh.refs[i+int(r.id)].name] = bh.refs[i+int(r.id)].id
 	}
 	r.id = -1
 	delete(bh.seenRefs, r.name)
@@ -551,6 +552,7 @@ func (bh *Header) RemoveReadGroup(rg *ReadGroup) error {
 	bh.rgs = append(bh.rgs[:rg.id], bh.rgs[rg.id+1:]...)
 	for i := range bh.rgs[rg.id:] {
 		bh.rgs[i+int(rg.id)].id--
+		bh.seenGroups[bh.rgs[i+int(rg.id)].name] = bh.rgs[i+int(rg.id)].id
 	}
 	rg.id = -1
 	delete(bh.seenGroups, rg.name)
@@ -581,6 +583,7 @@ func (bh *Header) RemoveProgram(p *Program) error {
 	bh.progs = append(bh.progs[:p.id], bh.progs[p.id+1:]...)
 	for i := range bh.progs[p.id:] {
 		bh.progs[i+int(p.id)].id--
+		bh.seenProgs[bh.progs[i+int(p.id)].uid] = bh.progs[i+int(p.id)].id
 	}
 	p.id = -1
 	delete(bh.seenProgs, p.uid)
